@@ -6,7 +6,7 @@
    MTU-bounded loop of Cluster.v.  All statements are for ALL copies, watermarks (including
    watermark above max version), keys, statuses and truncation points. *)
 From ChitchatModel Require Import Base SMap Ids Bytes Params NodeState Stream DeltaWire Message Cluster
-  FD Chitchat Monitors NodeState_lemmas Agreement Inv DeltaRefine Compute_lemmas Prefix_lemmas Monitors_sound.
+  FD Chitchat Monitors NodeState_lemmas Agreement Inv DeltaRefine Compute_lemmas Prefix_lemmas Monitors_sound MonitorsP.
 
 (* never refused as inapplicable or from the future; reset exactly when both the receiver's max
    version and watermark lie below the sender's watermark, and then from version 0; the only
@@ -80,3 +80,21 @@ Theorem C14_computed_deltas_pass_the_monitor : forall cs dg sched mtu x,
   cluster_inv cs -> delta_shape cs dg sched mtu x -> c14_delta_ok dg (cs_nodes cs) x = true.
 Proof. exact computed_delta_passes_c14. Qed.
 Print Assumptions C14_computed_deltas_pass_the_monitor.
+
+(* "Whenever the sender's copy is ahead the delta is non-empty (space permitting)", at the level of a
+   whole computed delta and for EVERY shuffle outcome: if some member the sender does not
+   quarantine is ahead of the digest, the budget is a legal one, and every such member's header
+   plus first operation fits it, the delta the sender computes is not empty.  This is the boolean
+   the C14 "offer" monitor evaluates on the implementation's replies. *)
+Theorem C14_sender_ahead_offers_something : forall zc,
+  (forall b c, zc b = Some c -> len c <= len b) -> forall cs dg mtu sched ord x,
+  cluster_inv cs -> compute_delta zc cs dg mtu sched ord = Ok x ->
+  c14_offer_ok (cs_nodes cs) dg sched mtu x = true.
+Proof. exact computed_delta_passes_offer. Qed.
+Print Assumptions C14_sender_ahead_offers_something.
+
+(* non-vacuity of the monitor's guard: it does constrain something *)
+Example C14_offer_monitor_rejects_an_empty_delta :
+  let c := fst (set new_copy [x6b] [x31]) in
+  c14_offer_ok [(mkId [x41] 0 (V4 1 1), c)] [] [] 1000 (mkDelta [] 0) = false.
+Proof. vm_compute. reflexivity. Qed.
